@@ -383,6 +383,113 @@ def replay_and_validate(ctx, scheds, invariants, tag, sig_fn=None, strict_budget
     return accepted_total, bad, runs
 
 
+def _last_step(run, cond=lambda r: True):
+    for k in range(len(run) - 1, 0, -1):
+        if run[k].get("ev") == "step" and cond(run[k]):
+            return k
+    return None
+
+
+def _corrupt(pred, run, w, limit):
+    """Returns a copy of `run` with ONE recorded field falsified so that exactly the clause `pred` talks about is
+    contradicted (or None if this run offers no suitable record)."""
+    run = json.loads(json.dumps(run))
+    nofault = lambda r: not r["st"]["everFaulted"] and r["st"]["running"]
+    calm_q = lambda r: r.get("q") and r["st"]["running"] and not r["st"]["paused"] and r["st"]["handles"] and all(
+        t == 0 for t in r["st"]["lstTimer"]) and not r["st"]["chan"][r["st"]["handles"][0]] and not r["st"]["inprog"][r["st"]["handles"][0]] and r["st"]["alive"][r["st"]["handles"][0]]
+    if pred in ("T_C03_NoLostWake", "T_C05_ListenerLive", "T_C08_ServiceResumes"):
+        k = _last_step(run, calm_q)
+        if k is None:
+            return None
+        run[k]["st"]["backlog"][0] = run[k]["st"]["backlog"][0] + [len(run[k]["st"]["listener"]) + 1]
+        run[k]["st"]["listener"] = run[k]["st"]["listener"] + [1]
+        run[k]["st"]["errq"] = [0 for _ in run[k]["st"]["errq"]]
+        return run[:k + 1]
+    k = _last_step(run, nofault)
+    if k is None:
+        return None
+    st = run[k]["st"]
+    if pred == "T_C02_Bound":
+        st["chan"][0] = st["chan"][0] + list(range(900, 900 + limit + 1))
+    elif pred == "T_C01_ServedOnce":
+        if not st["served"]:
+            return None
+        st["served"] = st["served"] + [st["served"][0]]
+    elif pred == "T_C01_Conservation":
+        k = _last_step(run, lambda r: nofault(r) and any(r["st"]["chan"]))
+        if k is None:
+            return None
+        st = run[k]["st"]
+        c = [x for ch in st["chan"] for x in ch][0]
+        st["backlog"][0] = st["backlog"][0] + [c]
+    elif pred == "T_C01_NoSilentDrop":
+        k = _last_step(run, lambda r: nofault(r) and any(r["st"]["backlog"]) and r["st"]["wstate"][0] not in ("Shutdown", "Done"))
+        if k is None:
+            return None
+        st = run[k]["st"]
+        c = [x for b in st["backlog"] for x in b][0]
+        st["closed"] = st["closed"] + [c]
+        st["accepted"] = st["accepted"] + [c]
+        st["backlog"] = [[x for x in b if x != c] for b in st["backlog"]]
+    elif pred in ("T_C04_RoundRobin", "T_C04_RoundRobinMeasured"):
+        st["dlog"] = [[n + 1, 0, True, 1, False, 0, True] for n in range(w + 1)]
+        if w < 2:
+            return None
+    elif pred == "T_C04_SaturatedGetsNothing":
+        st["dlog"] = st["dlog"] + [[901, 0, False, limit + 1, False, 0, False]]
+    elif pred == "T_C05_PausedNoDispatch":
+        run[k]["pausedDispatch"] = True
+    elif pred == "T_C05_UdsReachable":
+        st["connRefused"] = True
+    elif pred == "T_C05_BackoffExpires":
+        k = _last_step(run, lambda r: r.get("q") and r["st"]["running"])
+        if k is None:
+            return None
+        run[k]["st"]["lstTimer"][0] = 1
+    elif pred == "T_C08_NoPanic":
+        st["panicked"] = True
+    elif pred == "T_C08_NoSpin":
+        st["spin"] = True
+    elif pred == "T_C08_NoGhostBit":
+        st["handles"] = [h for h in st["handles"] if h != 0]
+        st["avail"][0] = True
+    elif pred == "T_C08_NoDupHandles":
+        st["handles"] = st["handles"] + st["handles"][:1]
+        if not st["handles"]:
+            return None
+    elif pred == "T_C08_FaultReportedOnce":
+        st["faults"] = [0, 0]
+    elif pred == "T_C08_Rerouted":
+        st["droppedOther"] = [1]
+    else:
+        return None
+    return run[:k + 1]
+
+
+def predicate_selftest(ctx, runs, invariants):
+    """Vacuity guard for the trace predicates themselves: for every predicate that decides this property, one accepted
+    recorded run with ONE falsified field must be rejected by TLC with exactly that predicate."""
+    done = ctx.cov.setdefault("predicate_selftest", {})
+    for pred in invariants:
+        if pred in done:
+            continue
+        for run in runs:
+            r0 = run[0]
+            bad = _corrupt(pred, run, r0["W"], r0["Limit"])
+            if bad is None:
+                continue
+            consts = {"W": r0["W"], "Limit": r0["Limit"], "L": r0["L"], "Uds": list(r0["uds"])}
+            cfgp = os.path.join(ctx.workdir, "selftest-%s.cfg" % pred)
+            trace_cfg(cfgp, consts, [pred])
+            _acc, rej = vlib.validate_runs(TMOD, cfgp, [bad], ctx.workdir, tag="selftest-%s" % pred, max_rejects=1)
+            if not rej or rej[0][2] != pred:
+                raise vlib.ToolError("selftest: a recorded run with a falsified field was not rejected by %s (%s)" % (pred, rej))
+            done[pred] = "rejected a falsified record"
+            break
+        else:
+            done[pred] = "no suitable run"
+
+
 def confirm_rejections(ctx, scheds, bad, invariants, tag="confirm"):
     """The stepped driver is deterministic up to the kernel (when a loopback connection becomes visible to the listener
     under load).  A rejected run is executed again, alone, twice; it is reported only if the same predicate fails again in
@@ -545,6 +652,8 @@ def run_check(ctx, *, design, edge_cfgs, negs, invariants, corpus, max_paths_qui
                                               strict_budget=(strict_quick if ctx.quick else -1))
     ctx.cov["traces_validated_against_impl"] += accepted
     bad = confirm_rejections(ctx, scheds, bad, invariants)
+    if not bad:
+        predicate_selftest(ctx, runs, invariants)
     for (i, rec, pred) in bad:
         sig = (signature(rec, pred, scheds[i]) if signature else "%s:%s" % (pred, rec.get("do")))
         ctx.violation(sig, "predicate %s is false on the state observed after step %s (%s) of a schedule from %s" % (
